@@ -278,8 +278,11 @@ fn fm_of(posidx: &[usize], names_idx: &[usize]) -> FnMap {
 fn meta_menu() -> Vec<Meta> {
     let fa = FnMap { names: vec!["<global>".into(), "foo".into()], entries: vec![(1, 0, 0), (1, 4, 1), (3, 2, 0)] };
     let fb = FnMap { names: vec!["bar".into()], entries: vec![(2, 1, 0)] };
+    // the same entries as `fa` (so the same mappings text) under other names
+    let fa_renamed = FnMap { names: vec!["<other>".into(), "foo2".into()], entries: fa.entries.clone() };
     vec![
         Meta::Fn(fa.clone(), 1),
+        Meta::Fn(fa_renamed, 1),
         Meta::Fn(fb, 2),
         Meta::FnPlusExtra(fa),
         Meta::Null,
